@@ -649,6 +649,31 @@ def piece_map_covers_every_file(ctx):
         ctx.decide("C13.9", fn, after or before, "when the file counter moves on, a node built from that file's record %s" % ("is attached before the next record is taken" if after else "has been attached"),
                    "the file counter moves on (`%s`) on a path that attaches no node for the file it pointed at: that file belongs to no piece, so rebuild never looks for it and never places it" % norm(inc), inc)
     ctx.floor("advances of the file counter in the v1 piece map", 1, len(incs))
+    # a file that a previous piece stopped in is left exactly when nothing of it remains.  The figure of what remains is
+    # the local subtracted from the record's length to find where to go on reading; inside the branch that continues such a
+    # file the counter may move on only where the code itself says that figure is exhausted: under a further test that
+    # speaks of it, or next to the statement that sets it to 0.  (Whether a test that speaks of other figures - the room
+    # left in the piece, say - happens to coincide with that is arithmetic this rule does not evaluate: undecided.)
+    rems = {x.right.id for x in own_nodes(fn.node) if isinstance(x, ast.BinOp) and isinstance(x.op, ast.Sub) and isinstance(x.right, ast.Name)
+            and isinstance(x.left, ast.Subscript) and const_str(x.left.slice) == "length"}
+    if len(rems) == 1:
+        REM = next(iter(rems))
+        for inc in incs:
+            inn = C.stmt_node(ctx, fn, inc)
+            deps = [(C.test_expr(b), lab) for b, lab in g.control_deps(inn) if C.test_expr(b) is not None]
+            cont = [t for t, lab in deps if isinstance(t, ast.Name) and t.id == REM and lab == "true"]
+            if not cont:
+                continue
+            speaks = [t for t, lab in deps if not (isinstance(t, ast.Name) and t.id == REM) and any(isinstance(x, ast.Name) and x.id == REM for x in ast.walk(t))]
+            par = ctx.prog.parent.get(inc)
+            block = next((l_ for f_ in ("body", "orelse") for l_ in [getattr(par, f_, None)] if isinstance(l_, list) and inc in l_), [])
+            zeroed = any(isinstance(s_, ast.Assign) and any(isinstance(t_, ast.Name) and t_.id == REM for t_ in s_.targets) and isinstance(s_.value, ast.Constant) and s_.value.value == 0 for s_ in block)
+            if speaks or zeroed:
+                ctx.holds("C13.9", fn, "a continued file is left where the code says nothing of it remains (%s)" % ("`%s = 0` in the same block" % REM if zeroed else "under `%s`" % norm(speaks[0])[:50]), inc)
+            else:
+                inner = [norm(t)[:40] for t, lab in deps if not (isinstance(t, ast.Name) and t.id == REM)]
+                ctx.undecided("C13.9", fn, "a continued file is left (`%s`) under %s, which does not speak of what remains of the file (`%s`): that the counter moves on exactly when the file is "
+                              "finished - also when file and piece end together - was not established" % (norm(inc), ("`%s`" % inner[-1]) if inner else "no further test", REM), inc)
 
 
 def run(ctx):
